@@ -140,7 +140,7 @@ pub fn behaviour() -> Behaviour {
         cfg,
         adjust: no_adjust,
         render,
-        quick: 1500,
+        quick: 4000,
         thorough: 20000,
         batch: 25,
         assumptions: &["a suffixed numeric literal on a primitive numeric field of another type is deliberately not generated (see DESIGN.md)"],
